@@ -173,6 +173,31 @@ def run(check, repo: Repo) -> None:
             for n in fcfg.nodes if n.kind == "stmt" and isinstance(n.stmt, ast.Assign) and unparse(n.stmt.targets[0]) == "dset.descan_shifts.data"]
     check.decide(dres == ["metadata['learned_descan_shifts']"], "C05-R3", "from_file(dset=…): learned descan shifts are restored", str(dres), tmod.line(ff), fail_detail=str(dres))
 
+    # sibling agreement of the dataset-attaching branches: save() persists the learned positions / descan shifts whenever the raw data is skipped, so EVERY
+    # way of obtaining a dataset in from_file — the caller's `dset=` and the automatic reload from `file_path` — must pass the restore before the dataset
+    # is attached (must-pass-through; "nothing persisted" = the False side of the metadata / key tests counts as passed)
+    attach = [n.id for n in fcfg.nodes if n.kind == "stmt" and isinstance(n.stmt, ast.Assign) and unparse(n.stmt.targets[0]).endswith(".dset") and unparse(n.stmt.value) == "dset"]
+    if not attach:
+        raise AnalysisError("from_file: `ptycho.dset = dset` not found")
+    sources = [(n.id, f"`{unparse(n.stmt)[:50]}`") for n in fcfg.nodes if n.kind == "stmt" and isinstance(n.stmt, ast.Assign) and unparse(n.stmt.targets[0]) == "dset"
+               and isinstance(n.stmt.value, ast.Call)]
+    for n in fcfg.nodes:
+        if n.kind == "branch" and n.polarity and unparse(fcfg.nodes[n.test].expr) == "dset is not None" and any(a in fcfg.reachable_from(n.id) for a in attach) \
+                and not any(fcfg.dominates(s_, n.id) for s_, _ in sources):
+            sources.append((n.id, "the caller's `dset=` argument"))
+    nothing = [n.id for n in fcfg.nodes if n.kind == "branch" and not n.polarity and any(k in unparse(fcfg.nodes[n.test].expr) for k in ("learned_scan_positions_px", "_dataset_metadata"))]
+    nothing += [n.id for n in fcfg.nodes if n.kind == "branch" and not n.polarity and isinstance(fcfg.nodes[n.test].expr, ast.Name) and fcfg.nodes[n.test].expr.id in mdl]
+    # a `dset is not None` test that merely guards the attach statement is reached FROM the real sources; it is not one itself
+    sources = [(sid, lb) for sid, lb in sources if not any(sid in fcfg.reachable_from(o) for o, _ in sources if o != sid)]
+    check.floor("from_file: ways of obtaining a dataset", len(sources), 2)
+    for sid, label in sources:
+        ok = all(fcfg.all_paths_pass_through(sid, a, set(restores) | set(nothing)) for a in attach)
+        check.decide(ok, "C05-R3", f"from_file: a dataset obtained through {label} receives the persisted learned scan positions before it is attached", "", tmod.line(fcfg.nodes[sid].stmt)
+                     if fcfg.nodes[sid].stmt is not None else tmod.line(ff), definite=True,
+                     fail_detail=f"a path from {label} reaches `ptycho.dset = dset` without `dset.scan_positions_px.data = metadata['learned_scan_positions_px']`: a reconstruction "
+                                 f"saved without raw data comes back on the nominal raster — the learned positions (and descan shifts) that save() persisted are dropped, and the "
+                                 f"continued run diverges from the uninterrupted one")
+
     # ---- R4 persisted state completeness -----------------------------------------------------------------------------------
     hist = {}
     for n in ast.walk(reset):
